@@ -34,6 +34,19 @@ KNOWN = {
 }
 
 
+# The basic Arabic letters U+0620..U+064A and the Syriac letters U+0710..U+072F, class by class, as the script
+# works (alef/dal/thal/reh/zain/waw and teh marbuta join only backwards, hamza not at all, tatweel causes joining; ...).
+ARABIC_BLOCK = "DURRRRDRDRDDDDDRRRRDDDDDDDDDDDDD" "CDDDDDDDRDD"          # 0620..064A
+SYRIAC_BLOCK = "ATDDDSSRRRDDDDRD" "DDDDDDDDRDSDRDDS"                      # 0710..072F
+for _i, _k in enumerate(ARABIC_BLOCK):
+    if 0x620 + _i not in KNOWN[_k]:
+        KNOWN[_k].append(0x620 + _i)
+for _i, _k in enumerate(SYRIAC_BLOCK):
+    if 0x710 + _i not in KNOWN[_k]:
+        KNOWN[_k].append(0x710 + _i)
+N_KNOWN = sum(len(v) for v in KNOWN.values())
+
+
 def q(shim, lines, **kw):
     return vlib.run_lines(shim, lines, **kw)
 
@@ -65,8 +78,9 @@ class Chars:
                                   {"stage": "search", "stream": "known-chars", "request": f"arabic jt {c}",
                                    "expected": JT_NUM[k], "observed": self.res[c]})
         n = sum(len(v) for v in KNOWN.values())
-        ctx.note_search("known-chars", n, n, rule="joining class of 55 well-known characters (Arabic, Syriac, N'Ko, "
-                        "Mandaic, Mongolian, Phags-pa, Manichaean, Hanifi Rohingya, controls, marks) vs the crate")
+        ctx.note_search("known-chars", n, n, rule=f"joining class of {N_KNOWN} well-known characters (all of U+0620..064A and "
+                        "U+0710..072F; samples of N'Ko, Mandaic, Mongolian, Phags-pa, Manichaean, Hanifi Rohingya, controls, "
+                        "marks) vs the crate")
         # pools per class: known characters first, then everything else the table puts into the class
         cset = set(KNOWN["C"])
         self.pool = {k: list(v) for k, v in KNOWN.items()}
@@ -227,6 +241,28 @@ def stream_masks(ctx, shim, ch, r, n):
             ks.append("has-fvs")
         return ks
     ctx.correspond("arabic-masks", lines=lines, classify=classify, canon=strip_flags)
+    # oracle on the crate alone: mask_out = mask_in | mask_array[action], action = the joining pass's own result
+    # (Mongolian: a free variation selector takes the action of the item before it)
+    jl = [join_line(ch, pre, text, post) for _, _, pre, text, _, post in cases]
+    mo = q(shim, lines)
+    jo = q(shim, jl)
+    bad = 0
+    for (mong, ma, pre, text, masks, post), ln, m, j in zip(cases, lines, mo, jo):
+        acts = [int(x) for x in j.split()[1:]]
+        if mong:
+            for i in range(1, len(acts)):
+                if text[i] in FVS:
+                    acts[i] = acts[i - 1]
+        exp = "ok " + " ".join(f"{a}:{mk | ma[a]}" for a, mk in zip(acts, masks)) if acts else "ok"
+        if strip_flags(m) != exp:
+            bad += 1
+            if bad <= 3:
+                ctx.violation(f"setup_masks does not OR exactly the form's 1-mask into the item masks: {ln}",
+                              {"stage": "search", "stream": "masks-oracle", "request": ln, "expected": exp,
+                               "observed": strip_flags(m)})
+    ctx.note_search("masks-oracle", len(cases), sum(1 for c in cases if c[3]), mismatches=bad,
+                    rule="setup_masks_inner on the crate vs mask_in | mask_array[action of the crate's own joining pass] "
+                         "(+ FVS copy for Mongolian); glyph-flag bits 0..2 ignored; non-trivial = non-empty text")
 
 
 def stream_mong(ctx, r, n):
@@ -304,6 +340,12 @@ def metamorphic(ctx, shim, ch, r, n):
         pre = [ch.rand_cp(r) for _ in range(r.range(0, 5))]
         post = [ch.rand_cp(r) for _ in range(r.range(0, 5))]
         cases.append((pre, text, post))
+    # directed: a joining letter separated from the text by 0..4 transparent context characters (5 slots in all)
+    for k in range(5):
+        for tc in ch.pool["T"][:6]:
+            cases.append(([r.choice(ch.pool["D"][:8])] + [tc] * k, [r.choice(ch.pool["R"][:8])], []))
+            cases.append(([], [r.choice(ch.pool["D"][:8])], [tc] * k + [r.choice(ch.pool["R"][:8])]))
+            cases.append(([r.choice(ch.pool["S"])] + [tc] * k, [r.choice(ch.pool["A"])], []))
     ch.learn(shim, sorted({c for p, t, q_ in cases for c in p + t + q_}))
     tpool = ch.pool["T"][:20]
     lines = []
@@ -345,7 +387,7 @@ def run(ctx):
         "mongolian_variation_selectors with the STATE_TABLE, action numbers, feature list and joining-type ranges "
         "regenerated from the compiled crate; the model is tied to the crate by the arabic-* correspondence streams",
         "the per-character joining-type table has no independent source offline: its use is verified, its content is "
-        "spot-checked on 55 well-known characters and on the two Syriac groups (C11_syriac_groups)",
+        "spot-checked on ~110 well-known characters and on the two Syriac groups (C11_syriac_groups)",
         "glyph-flag side effects of arabic_joining (unsafe_to_concat, safe_to_insert_tatweel: mask bits 0..2) are not "
         "modelled here (buffer model, C03/C04); the masks stream strips those three bits",
         "Spec/Joining.lean's Syriac part (fin2/fin3/med2) is a reading of the OpenType Syriac document, see the file",
@@ -393,6 +435,10 @@ def replay(ctx, rp):
     shim = vlib.build_harness()
     model = vlib.build_model()
     rc = 0
+    if rp.get("stream") == "masks-oracle":
+        a = strip_flags(q(shim, [rp["request"]], nproc=1)[0])
+        print("impl    :", a); print("expected:", rp["expected"])
+        return 0 if a == rp["expected"] else 1
     for key in ("request", "as_text", "with_T"):
         if key in rp:
             a = q(shim, [rp[key]], nproc=1)[0]
